@@ -453,7 +453,7 @@ class Interp:
             return True
         if isinstance(v, VFloat):
             return v.conc != 0.0
-        if isinstance(v, VLib) and v.kind in ("Match", "UUID", "Path", "IntelHex", "Struct", "HashAlg", "PrivateKey", "PublicKey"):
+        if isinstance(v, VLib) and v.kind in ("Logger", "Match", "UUID", "Path", "IntelHex", "Struct", "HashAlg", "PrivateKey", "PublicKey"):
             return True
         raise OutOfSubset(f"truthiness of {v!r}")
 
